@@ -8,7 +8,7 @@ AnalysisError, never a silent skip.
 """
 import ast
 from .model import AnalysisError
-from .sym import SymEval, Eff, mk_cmp, mk_not, mk_bool, is_const, is_heap_path, cat, C
+from .sym import SymEval, Eff, mk_cmp, mk_not, mk_bool, mk_bin, is_const, is_heap_path, cat, C
 from .model import EnumVal
 
 MAX_PATHS = 60000
@@ -148,6 +148,13 @@ def _local_names(fnode):
     return out
 
 
+def _table_item(x, depth=0):
+    """an element of a constant table: a scalar, or a (nested) tuple of such"""
+    if isinstance(x, (int, str, float, bool, type(None))):
+        return True
+    return isinstance(x, tuple) and depth < 3 and all(_table_item(y, depth + 1) for y in x)
+
+
 class Enumerator:
     def __init__(self, unroll=1, may_raise=None, summarize_pad=True, prog=None, cls=None, inline=True):
         self.unroll = unroll
@@ -166,6 +173,21 @@ class Enumerator:
         if not self.inline or self._depth >= 3 or not isinstance(call, ast.Call):
             return None
         f = call.func
+        if isinstance(f, ast.Name) and self.fnode is not None:
+            lf = self._local_function(call, f.id)
+            if lf is not None:
+                return lf
+            # a plain function of the same module (a helper moved out of the class)
+            mf = self.prog.funcs.get("%s:%s" % (self.cls.mod, f.id)) if self.cls is not None else None
+            if mf is None or mf.cls is not None or mf.vararg or mf.kwarg or any(isinstance(a, ast.Starred) for a in call.args) \
+                    or any(k.arg is None for k in call.keywords):
+                return None
+            if any(isinstance(n, (ast.Yield, ast.YieldFrom, ast.Await, ast.Global, ast.Nonlocal, ast.Lambda)) for n in ast.walk(mf.node)) or \
+                    any(isinstance(n, ast.Call) and isinstance(n.func, ast.Name) and n.func.id == mf.name for n in ast.walk(mf.node)):
+                return None
+            if any(isinstance(n, ast.Name) and n.id == f.id and isinstance(n.ctx, (ast.Store, ast.Del)) for n in ast.walk(self.fnode)):
+                return None   # shadowed by a local
+            return mf
         if not (isinstance(f, ast.Attribute) and isinstance(f.value, ast.Name) and f.value.id == "self"):
             return None
         if f.attr in anchors() or any(isinstance(a, ast.Starred) for a in call.args) or any(k.arg is None for k in call.keywords):
@@ -178,6 +200,31 @@ class Enumerator:
         if any(isinstance(n, ast.Call) and isinstance(n.func, ast.Attribute) and isinstance(n.func.value, ast.Name)
                and n.func.value.id == "self" and n.func.attr == fn.name for n in ast.walk(fn.node)):
             return None   # recursive
+        return fn
+
+    def _local_function(self, call, name):
+        """Func for a call of a function defined by a `def` nested in the function being enumerated (a closure over its locals):
+        bound exactly once, not re-assigned, no recursion, no varargs, no yield"""
+        from .model import Func
+        cache = self.__dict__.setdefault("_localfn", {})
+        key = (id(self.fnode), name)
+        if key not in cache:
+            defs = [n for n in ast.walk(self.fnode) if isinstance(n, ast.FunctionDef) and n.name == name]
+            rebound = [n for n in ast.walk(self.fnode) if isinstance(n, ast.Name) and n.id == name and isinstance(n.ctx, (ast.Store, ast.Del))]
+            fn = None
+            if len(defs) == 1 and not rebound:
+                d = defs[0]
+                bad = any(isinstance(n, (ast.Yield, ast.YieldFrom, ast.Await, ast.Global, ast.Nonlocal, ast.Lambda)) for n in ast.walk(d)) or \
+                    any(isinstance(n, ast.Call) and isinstance(n.func, ast.Name) and n.func.id == name for n in ast.walk(d)) or \
+                    any(isinstance(n, ast.FunctionDef) and n is not d for n in ast.walk(d)) or d.decorator_list
+                if not bad:
+                    fn = Func("<local>", None, d)
+                    if fn.vararg or fn.kwarg:
+                        fn = None
+            cache[key] = fn
+        fn = cache[key]
+        if fn is None or any(isinstance(a, ast.Starred) for a in call.args) or any(k.arg is None for k in call.keywords):
+            return None
         return fn
 
     def _inline(self, call, fn, on_value):
@@ -546,9 +593,7 @@ class Enumerator:
         elif self.prog is not None and self.cls is not None and isinstance(it, (ast.Attribute, ast.Name)):
             from .model import NOCONST
             v = self.prog.const_eval(it, self.cls.mod, self.cls)
-            if v is not NOCONST and isinstance(v, (list, tuple)) and all(
-                    isinstance(x, (int, str, float, bool, type(None))) or
-                    (isinstance(x, tuple) and all(isinstance(y, (int, str, float, bool, type(None))) for y in x)) for x in v):
+            if v is not NOCONST and isinstance(v, (list, tuple)) and all(_table_item(x) for x in v):
                 vals = list(v)
         # zip(<display of constants>, <display of constants>, ...): a display of tuples
         if vals is None and isinstance(it, ast.Call) and isinstance(it.func, ast.Name) and it.func.id == "zip" and not it.keywords and len(it.args) >= 2 \
@@ -600,8 +645,7 @@ class Enumerator:
             if len(srcs) == 1 and srcs[0] is not None:
                 v = self.prog.const_eval(srcs[0], self.cls.mod, self.cls)
                 if v is not NOCONST and isinstance(v, (list, tuple)) and 0 < len(v) <= 16 and not any(isinstance(n, (ast.Break, ast.Continue)) for n in ast.walk(st)) \
-                        and all(isinstance(x, (int, str, float, bool, type(None))) or
-                                (isinstance(x, tuple) and all(isinstance(y, (int, str, float, bool, type(None))) for y in x)) for x in v):
+                        and all(_table_item(x) for x in v):
                     vals = list(v)
                     return vals, False
         if vals is None and isinstance(it, ast.Name) and getattr(self, "fnode", None) is not None and not enum and not st.orelse:
@@ -792,6 +836,7 @@ def pattern_sym(evalr, subject, case):
 def replay(prog, func, path, env=None, keep_env=False, evalr=None, prune=True):
     """Replay `path` of `func`; returns Run (feasible=False if a condition is constant-contradicted)."""
     ev = evalr.clone() if evalr is not None else SymEval(prog, func, env)
+    loopst = {}     # id(for node) -> (node, start Sym, iterations so far) for `for i in range(a, b)` with a symbolic start
     recs = []
     feasible = True
     for e in path.events:
@@ -823,12 +868,29 @@ def replay(prog, func, path, env=None, keep_env=False, evalr=None, prune=True):
             recs.append(Rec(e, effs, s, e.pol, env=snap))
         elif e.kind == "for":
             if e.pol == "iter":
-                s, effs = ev.cond(e.node.iter)
-                if not raised:
-                    ev.uid += 1
-                    ev._bind_target(e.node.target, ("iter", s, ev.uid))
-                recs.append(Rec(e, effs, env=snap))
+                # loops nested in this one start afresh
+                for k_ in [k_ for k_, (nd_, _, _) in loopst.items() if nd_ is not e.node and any(x is nd_ for x in ast.walk(e.node))]:
+                    del loopst[k_]
+                st_ = loopst.get(id(e.node))
+                if st_ is not None:
+                    # `for i in range(a, b)`: the iterable was evaluated once, on entry; the k-th iteration binds a + k
+                    _, start_, cnt_ = st_
+                    loopst[id(e.node)] = (e.node, start_, cnt_ + 1)
+                    ev._bind_target(e.node.target, mk_bin("+", start_, ("c", cnt_ + 1)))
+                    recs.append(Rec(e, [], env=snap))
+                else:
+                    s, effs = ev.cond(e.node.iter)
+                    if not raised:
+                        if isinstance(e.node.target, ast.Name) and s[0] == "call" and s[1] == ("glob", "range") and len(s[2]) == 2 and not s[3] \
+                                and not is_const(s[2][0]):
+                            loopst[id(e.node)] = (e.node, s[2][0], 0)
+                            ev._bind_target(e.node.target, s[2][0])
+                        else:
+                            ev.uid += 1
+                            ev._bind_target(e.node.target, ("iter", s, ev.uid))
+                    recs.append(Rec(e, effs, env=snap))
             else:
+                loopst.pop(id(e.node), None)
                 recs.append(Rec(e, [], env=snap))
         elif e.kind == "with":
             s, effs = ev.cond(e.node)
@@ -890,12 +952,36 @@ def _resolve_ife(run):
     if not has:
         return
     facts = [(g, p) for g, p in run.guards() if _stable(g)]
-    if not facts:
+    # a local that is assigned once and tested bare (`if flag:` ... `a if flag else b`) is one decision, whatever it was computed from
+    snap = {}
+    assigned = {}
+    for r in run.recs:
+        nd = r.ev.node
+        if r.ev.kind == "stmt" and isinstance(nd, ast.Assign):
+            for t in nd.targets:
+                if isinstance(t, ast.Name):
+                    assigned[t.id] = assigned.get(t.id, 0) + 1
+        if r.cond is not None and r.pol is not None:
+            tn, pol = nd, r.pol
+            if isinstance(tn, ast.UnaryOp) and isinstance(tn.op, ast.Not):
+                tn = tn.operand
+            if isinstance(tn, ast.Name) and assigned.get(tn.id) == 1:
+                c = r.cond
+                while c[0] == "not":
+                    c, pol = c[1], not pol
+                snap[c] = pol
+    if not facts and not snap:
         return
-    F = G.conj(facts)
+    F = G.conj(facts) if facts else ("c", True)
 
     def fn(x):
-        if x[0] == "ife" and _stable(x[1]):
+        if x[0] == "ife" and snap:
+            c, flip = x[1], False
+            while c[0] == "not":
+                c, flip = c[1], not flip
+            if c in snap:
+                return x[2] if (snap[c] != flip) else x[3]
+        if x[0] == "ife" and _stable(x[1]) and facts:
             try:
                 if G.implies(F, x[1])[0]:
                     return x[2]
